@@ -394,7 +394,18 @@ func TruncFunc(spec1, spec2 Spec) func(string) string {
 
 	// Both multi-field with same number of fields
 	if len(spec1.Fields) == len(spec2.Fields) {
-		return func(s string) string { return s }
+		if len(spec1.Fields2) == 0 {
+			return func(s string) string { return s }
+		}
+		// spec1 is a unique index: when all its Fields are empty
+		// the key comes from Fields2 and the spec2 key is empty
+		allEmpty := strings.Repeat(Sep, len(spec1.Fields))
+		return func(s string) string {
+			if strings.HasPrefix(s, allEmpty) {
+				return ""
+			}
+			return s
+		}
 	}
 
 	// Multi-field to multi-field with fewer fields
